@@ -179,13 +179,13 @@ def _ranges(n, rest):
     return [range(int(lo), int(hi)) for lo, hi in rest]
 
 
-def _forall(f, *rest):
+def _forall(f, *rest, trig=None):
     import itertools
     n = f.__code__.co_argcount
     return all(f(*c) for c in itertools.product(*_ranges(n, rest)))
 
 
-def _exists(f, *rest):
+def _exists(f, *rest, trig=None):
     import itertools
     n = f.__code__.co_argcount
     return any(f(*c) for c in itertools.product(*_ranges(n, rest)))
@@ -206,7 +206,7 @@ class Evaluator:
             "allocated_before": lambda x: True, "is_none": lambda x: x is None,
             "unchanged": self._unchanged, "real": float, "seqsum": lambda l, lo=0, hi=None: math.fsum(list(l)[lo:hi]),
             "fdiv": lambda a, b: a / b, "math": math, "inf": math.inf,
-            "_enumval": lambda v: getattr(v, "value", v), "round_dec": _round_dec,
+            "_enumval": lambda v: getattr(v, "value", v), "round_dec": _round_dec, "owner": self._owner,
         }
         env.update(self.extra)
         for name in self.reg.macros:
@@ -231,6 +231,37 @@ class Evaluator:
         if callable(x) and not hasattr(x, "__dict__"):
             return x
         return self.memo.get(id(x), x) if hasattr(self, "memo") else x
+
+    def _owner(self, part):
+        """run-time reading of the ghost ownership map: the unique design whose vector / costs / costs_signed / features is
+        `part` (None when no design or more than one design holds it)"""
+        owners = []
+        seen = set()
+
+        def walk(o, depth):
+            if id(o) in seen or depth > 6 or isinstance(o, _ATOMIC):
+                return
+            seen.add(id(o))
+            if hasattr(o, "costs_signed") and hasattr(o, "vector"):
+                for a in ("vector", "costs", "costs_signed", "features"):
+                    if getattr(o, a, None) is part:
+                        owners.append(o)
+                        break
+            if isinstance(o, (list, tuple)):
+                for x in o:
+                    walk(x, depth + 1)
+            elif isinstance(o, dict):
+                for x in o.values():
+                    walk(x, depth + 1)
+            elif hasattr(o, "__dict__"):
+                mod = type(o).__module__ or ""
+                if mod.startswith(("logging", "threading", "sqlite3")):
+                    return
+                for x in vars(o).values():
+                    walk(x, depth + 1)
+        for v in self.roots:
+            walk(v, 0)
+        return owners[0] if len(owners) == 1 else None
 
     def _canon(self, x):
         return self.canon.get(id(x), x)
@@ -288,7 +319,10 @@ class Evaluator:
                 self.canon[id(cp)] = originals[oid]
         self._originals = originals
 
+    roots = ()
+
     def eval_clause(self, text, params, env_values):
+        self.roots = list(env_values.values()) + list(self.pre.values())
         key = (text, tuple(params))
         code = _CODE.get(key)
         if code is None:
